@@ -141,6 +141,24 @@ where
     }
 }
 
+#[cfg(feature = "verif-hooks")]
+#[allow(missing_docs)]
+impl<B, R> DecoderReader<B, R>
+where
+    B: Buffer,
+    R: ByteSource,
+{
+    /// Verification hook (feature `verif-hooks`): access to the wrapped decoder.
+    pub fn verif_decoder_mut(&mut self) -> &mut Decoder<B> {
+        &mut self.decoder
+    }
+
+    /// Verification hook (feature `verif-hooks`): build a reader around an existing decoder.
+    pub fn verif_from_parts(decoder: Decoder<B>, reader: R) -> Self {
+        DecoderReader { decoder, reader }
+    }
+}
+
 #[cfg(test)]
 mod decoder_reader_tests {
     use core::iter::once;
